@@ -150,6 +150,10 @@ func execC17(ctx *Ctx, in *Input) *Result {
 					continue
 				}
 				pr := &prs[fi]
+				if pr.TraceCapped {
+					res.Count("not_judged_trace_longer_than_6MB", 1)
+					continue
+				}
 				if pr.Outcome != "accept" && pr.Outcome != "syntax" {
 					res.Count("not_judged_outcome_"+pr.Outcome, 1)
 					continue
